@@ -449,6 +449,27 @@ func (cp *ctxProv) varKey(pkg *packages.Package, v *types.Var) string {
 			if f.Pos() <= v.Pos() && v.Pos() < f.End() {
 				for _, d := range f.Decls {
 					if fd, ok := d.(*ast.FuncDecl); ok && fd.Pos() <= v.Pos() && v.Pos() < fd.End() {
+						// the ordinal of v among the context variables the declaration declares without a value
+						// (source order): a rename does not change the key
+						ord, mine := 0, 0
+						ast.Inspect(fd, func(x ast.Node) bool {
+							vs, ok := x.(*ast.ValueSpec)
+							if !ok || len(vs.Values) != 0 {
+								return true
+							}
+							for _, id := range vs.Names {
+								if o, ok := p.TypesInfo.Defs[id].(*types.Var); ok && model.IsContext(o.Type()) {
+									ord++
+									if o == v {
+										mine = ord
+									}
+								}
+							}
+							return true
+						})
+						if mine > 0 {
+							return fmt.Sprintf("%s.%s/zero-ctx#%d", model.ShortPkg(p.PkgPath), model.DeclName(fd), mine)
+						}
 						return model.ShortPkg(p.PkgPath) + "." + model.DeclName(fd) + "/" + v.Name()
 					}
 				}
